@@ -696,6 +696,111 @@ func replayLists(c *mc.Ctx, raw json.RawMessage) string {
 	return ""
 }
 
+// runConstructions: a resolver is determined by the options it was built with, in whatever order they are given,
+// and building one never affects another: every permutation of every non-empty subset of the three range options,
+// each enabled or disabled (78 option lists), for RightmostNonPrivate (Trust*) and LeftmostNonPrivate (Exclude*);
+// after each construction the new resolver, a resolver built earlier with no option and a fresh one with no option
+// are asked about one address of every default table behind a public address.
+func runConstructions(c *mc.Ctx, r *mc.Result) {
+	if c.Shard != 0 {
+		return
+	}
+	tables := clientip.VerifDefaultRanges()
+	pl := toPrefixes(tables["privateAndLocal"])
+	tabs := [][]netip.Prefix{toPrefixes(tables["loopback"]), toPrefixes(tables["linkLocal"]), toPrefixes(tables["private"])}
+	names := []string{"Loopback", "LinkLocal", "PrivateNet"}
+	type optv struct {
+		which  int
+		enable bool
+	}
+	var lists [][]optv
+	var rec func(cur []optv, used int)
+	rec = func(cur []optv, used int) {
+		if len(cur) > 0 {
+			lists = append(lists, append([]optv{}, cur...))
+		}
+		for w := 0; w < 3; w++ {
+			if used&(1<<w) == 0 {
+				rec(append(cur, optv{w, true}), used|1<<w)
+				rec(append(cur, optv{w, false}), used|1<<w)
+			}
+		}
+	}
+	rec(nil, 0)
+	probes := []string{"127.0.0.1", "::1", "169.254.1.1", "fe80::1", "10.0.0.1", "192.168.1.1", "fd00::1", "172.16.0.1", "8.8.4.4", "100.64.0.1"}
+	r.Bounds["constructions"] = fmt.Sprintf("%d ordered option lists x {RightmostNonPrivate, LeftmostNonPrivate} x 3 resolvers (the new one, an earlier default one, a fresh default one) x %d probe addresses", len(lists), len(probes))
+	for _, left := range []bool{false, true} {
+		mkDefault := func() fox.ClientIPResolver {
+			if left {
+				res, _ := clientip.NewLeftmostNonPrivate(clientip.XForwardedForKey, 3)
+				return res
+			}
+			res, _ := clientip.NewRightmostNonPrivate(clientip.XForwardedForKey)
+			return res
+		}
+		refOf := func(rs []netip.Prefix) func(es []ref.Entry) (netip.Addr, bool) {
+			if left {
+				return func(es []ref.Entry) (netip.Addr, bool) { return ref.LeftmostNonPrivate(es, rs, 3) }
+			}
+			return func(es []ref.Entry) (netip.Addr, bool) { return ref.RightmostNonPrivate(es, rs) }
+		}
+		early := mkDefault()
+		for _, l := range lists {
+			var rs []netip.Prefix
+			var desc []string
+			var res fox.ClientIPResolver
+			var err error
+			if left {
+				var opts []clientip.BlacklistRangeOption
+				for _, o := range l {
+					opts = append(opts, []func(bool) clientip.BlacklistRangeOption{clientip.ExcludeLoopback, clientip.ExcludeLinkLocal, clientip.ExcludePrivateNet}[o.which](o.enable))
+					desc = append(desc, fmt.Sprintf("Exclude%s(%v)", names[o.which], o.enable))
+				}
+				res, err = clientip.NewLeftmostNonPrivate(clientip.XForwardedForKey, 3, opts...)
+			} else {
+				var opts []clientip.TrustedRangeOption
+				for _, o := range l {
+					opts = append(opts, []func(bool) clientip.TrustedRangeOption{clientip.TrustLoopback, clientip.TrustLinkLocal, clientip.TrustPrivateNet}[o.which](o.enable))
+					desc = append(desc, fmt.Sprintf("Trust%s(%v)", names[o.which], o.enable))
+				}
+				res, err = clientip.NewRightmostNonPrivate(clientip.XForwardedForKey, opts...)
+			}
+			if err != nil {
+				r.Violate("constructions", "error", fmt.Sprintf("constructor failed for %v: %v", desc, err), Case{Resolver: strings.Join(desc, ",")})
+				continue
+			}
+			for _, o := range l {
+				if o.enable {
+					rs = append(rs, tabs[o.which]...)
+				}
+			}
+			if len(rs) == 0 {
+				rs = pl
+			}
+			for ri, rr := range []struct {
+				name string
+				res  fox.ClientIPResolver
+				rs   []netip.Prefix
+			}{{"the resolver built with " + strings.Join(desc, ", "), res, rs}, {"a resolver built earlier without options, after building one with " + strings.Join(desc, ", "), early, pl}, {"a resolver built without options after one with " + strings.Join(desc, ", "), mkDefault(), pl}} {
+				for _, pa := range probes {
+					lines := []string{"8.8.8.8, " + pa}
+					if left {
+						lines = []string{pa + ", 8.8.8.8"}
+					}
+					class, msg := evalLists(rdef{name: rr.name, ref: refOf(rr.rs)}, rr.res, false, lines)
+					r.Evaluations++
+					if ri == 0 {
+						r.DistinctNontrivial++
+					}
+					if class != "" {
+						r.Violate("constructions", class, msg, Case{Resolver: rr.name, Lines: lines})
+					}
+				}
+			}
+		}
+	}
+}
+
 func init() {
 	mc.Register(&mc.Check{
 		ID:    "C18",
@@ -711,6 +816,16 @@ func init() {
 			{Name: "lists", Run: runLists, Replay: replayLists},
 			{Name: "elements", Run: runElements, Replay: replayLists},
 			{Name: "others", Run: runOthers, Replay: replayLists},
+			{Name: "constructions", Run: runConstructions, Replay: func(c *mc.Ctx, raw json.RawMessage) string {
+				r := mc.NewResult()
+				cc := *c
+				cc.Shard = 0
+				runConstructions(&cc, r)
+				if len(r.Violations) > 0 {
+					return r.Violations[0].Msg
+				}
+				return ""
+			}},
 			{Name: "ranges", Run: runRanges, Replay: func(c *mc.Ctx, raw json.RawMessage) string {
 				r := mc.NewResult()
 				cc := *c
